@@ -67,8 +67,14 @@ def gen_kinst(rng, nmin=2, nmax=10, m=0, labelled=False, kinds=("feat", "lattice
             if pos and dim >= 2 and rng.random() < 0.5:
                 X = [[0.0 if rng.random() < 0.3 else v for v in r] for r in X]      # sparse non-negative rows
             for i in range(n, N):
-                if rng.random() < 0.35:
+                r_ = rng.random()
+                if r_ < 0.35:
                     X[i] = list(X[rng.randrange(n)])
+                elif r_ < 0.5:
+                    # a query far away from every training sample (all exp(-d/constant) terms tiny or underflowing), at
+                    # several distances: the k nearest are still determined by the distances
+                    far = 10.0 ** rng.choice([1.5, 2, 3, 4, 6])
+                    X[i] = [abs(v) * far + far if pos else v * far + rng.choice([-1, 1]) * far for v in X[i]]
         D = metric_matrix(metric, X)
         if all(v == v for r in D for v in r):
             return KInst(kind, X, D, n, m, metric, labels)
